@@ -286,6 +286,7 @@ func init() {
 		}
 		dts := run.Rule("DT-S", "ScMinimalVartime returns exactly 'little-endian value < L' on every consistent abstract input, false on any other length", 5000)
 		red := run.Rule("REDUCED", "every scalar operation documented to return a reduced value packs a value that is reduced by construction (Montgomery reduction, or sums/differences of reduced values and constants below L)", 12)
+		al := run.Rule("ALIAS", "scalar operations compute the same result when receiver and operands denote one object", 12)
 		dt := run.Rule("DT-canonical", "SetCanonicalBytes accepts exactly len = 32 ∧ bit 255 clear ∧ IsCanonical; IsCanonical compares the scalar with its own reduction", 4)
 		for _, id := range c.Configs() {
 			p := c.Prog(id)
@@ -295,6 +296,9 @@ func init() {
 				run.Sample(s)
 			}
 			checkReducedOutputs(red, cfg)
+			if id == c.Configs()[0] {
+				run.Sample(checkAliasing(al, p, []string{"curve/scalar"}))
+			}
 			for _, s := range c05Specs() {
 				r := edt.Check(dt, cfg, s)
 				if id == c.Configs()[0] {
